@@ -231,9 +231,10 @@ def clear_config():
 
 def establish(ts, c, ktabs=None, xops=None):
     """Configuration c is established through its route for the tables of both kinds of `ts`; returns the loaded
-    objects (ktabs, xops).  Route 'setter' keeps the objects already loaded and changes them in place; every other
-    route loads the files again, from ktable_path / xsec_path through the caches ('ctor': constructed with the
-    scheme as argument and handed to the caches)."""
+    objects (ktabs, xops).  Route 'setter' keeps the objects already loaded and changes them in place; route 'api'
+    leaves them in the caches and calls OpacityCache.set_interpolation, which has to make them follow; the other
+    routes load the files again, from ktable_path / xsec_path through the caches ('ctor': constructed with the scheme
+    as argument and handed to the caches)."""
     from taurex.cache import OpacityCache
     from taurex.cache.ktablecache import KTableCache
     kc, oc = KTableCache(), OpacityCache()
@@ -262,13 +263,17 @@ def establish(ts, c, ktabs=None, xops=None):
             for mol in mols:
                 kc.add_opacity(PickleKTable(ts.kfile[mol], c.interp))
                 oc.add_opacity(PickleOpacity(ts.xfile[mol], c.interp))
+    elif c.route == 'api':
+        # the documented call for a running session: the tables of BOTH kinds the session has loaded stay in the caches
+        # and the call itself must make every loaded (and future) table follow the scheme
+        install(ktabs or {}, xops or {})
+        oc.set_interpolation(c.interp)
+        if c.extra == 'stream':
+            oc.set_memory_mode(False)
+        for mol in mols:
+            kc[mol], oc[mol]
     else:
-        install({}, {})
-        if c.route == 'api':
-            oc.set_interpolation(c.interp)          # the documented call (empties the cross-section cache)
-            if c.extra == 'stream':
-                oc.set_memory_mode(False)
-            kc.clear_cache()
+        install({}, {})          # the key is written directly: the user empties both caches
         for mol in mols:
             kc[mol], oc[mol]
     out = dict(kc.opacity_dict), dict(oc.opacity_dict)
